@@ -816,6 +816,25 @@ package go9p
 //@ pure reqok(req) = req != nil && req.Tc != nil && req.Rc != nil && req.Conn != nil && req.Conn.Srv != nil && implements(req.Conn.Srv.ops, "SrvReqOps")
 //@ pure iohdr() = 24
 
+// C07: the Tflush handler. An Rflush is sent at once exactly when no request with the old tag is in the
+// connection's table; otherwise the Tflush is chained in front of the target's flush list (keeping what was
+// chained before), a target that has not started is marked flushed and answered, and a target being worked on
+// is handed to the implementation's Flush operation.
+//@ func (*Srv).flush(srv, req)
+//@   opt lockcheck
+//@   property C07 C06 C19
+//@   requires srv != nil && reqwf(req) && req.Conn.Srv == srv && nolocks()
+//@   at unlock(conn.Unlock) assume r != nil ==> reqwf(r)
+//@   at unlock(conn.Unlock) requires [C07 chained] inmap(conn.reqs, tag) && conn.reqs[tag] != nil && conn.reqs[tag] != req ==> r == conn.reqs[tag] && r.flushreq == req && req.flushreq == old(req.Conn.reqs[req.Tc.Oldtag].flushreq)
+//@   at unlock(conn.Unlock) requires [C07 unchained] !(inmap(conn.reqs, tag) && conn.reqs[tag] != nil && conn.reqs[tag] != req) ==> r == nil && req.flushreq == old(req.flushreq)
+//@   at call((*SrvReq).Respond)#1 requires [C07 immediate] arg0 == req && r == nil
+//@   at call((*SrvReq).Respond)#2 requires [C07 cancel] arg0 == r && r.status & 1 != 0 && status & 10 == 0
+//@   at call(FlushOp.Flush) requires [C07 working] arg1 == r && status & 10 != 0
+//@   ghost nact int = 0
+//@   at call((*SrvReq).Respond) ghost nact := nact + 1
+//@   at call(FlushOp.Flush) ghost nact := nact + 1
+//@   ensures  [C07 acted] nact == 1 || (nact == 0 && !implements(old(srv.ops), "FlushOp"))
+
 //@ func (*Srv).walk(srv, req)
 //@   property C05 C06
 //@   requires srv != nil && reqwf(req) && nolocks() && req.Fid != nil && poolokh(req.Conn)
@@ -1006,6 +1025,12 @@ package go9p
 //@   at send(conn.reqout) requires [notflushed] status & 1 == 0
 //@   at send(conn.reqout) requires [bookkeeping-first] pp
 //@   at send(conn.reqout) requires [own] req.Conn == conn
+//@   ghost started bool = false
+//@   at go((*SrvReq).process) ghost started := true
+//@   ensures  [C07 C04 cleanup] old(req.status) & 4 == 0 ==> pp
+//@   ghost hasnext bool = false
+//@   at unlock(conn.Unlock) ghost hasnext := nextreq != nil
+//@   ensures  [C08 C07 successor] old(req.status) & 4 == 0 && hasnext ==> started
 //@   assigns  everything
 
 //@ func (*Srv).version(srv, req)
@@ -1179,6 +1204,7 @@ package go9p
 //@   requires offset + len(buf) <= 9223372036854775807 && len(buf) <= 4294967295
 //@   ensures  err == nil ==> ret == min(len(buf), remaining(file.Fid, offset))
 //@   ensures  err == nil ==> forall k int :: 0 <= k && k < ret ==> buf[k] == fbyte(file.Fid, offset + k)
+//@   ensures  [C14 eofisnoerror] err != io.EOF
 //@   assigns  elems(buf)
 //@   loop 1
 //@     invariant 0 <= ret && ret <= len(old(buf)) && buf == old(buf)[ret:] && offset == old(offset) + ret
@@ -1481,6 +1507,10 @@ package go9p
 //@ func (*Ufs).FidDestroy(ufs, sfid)
 //@   property C06 C11
 //@   requires sfid != nil && (sfid.Aux != nil ==> dyntype(sfid.Aux, "*ufsFid") && ival(sfid.Aux, "*ufsFid") != nil)
+//@   ghost nclose int = 0
+//@   at call((*os.File).Close) ghost nclose := nclose + 1
+//@   at call((*os.File).Close) requires [C11 thefile] arg0 == old(ival(sfid.Aux, "*ufsFid").file)
+//@   ensures  [C11 closes] old(sfid.Aux) != nil && old(ival(sfid.Aux, "*ufsFid").file) != nil ==> nclose == 1
 
 //@ func (*Ufs).Clunk(ufs, req)
 //@   property C06
@@ -1567,6 +1597,9 @@ package go9p
 //@ func (*Logger).Log(l, data, owner, itype)
 //@   property C20 C06
 //@   requires l != nil
+//@   ghost nsent int = 0
+//@   at send(l.logchan) ghost nsent := nsent + 1
+//@   ensures  [C20 queued] nsent == 1
 //@   assigns  fresh
 
 //@ func (*Conn).logFcall(conn, fc)
@@ -1580,6 +1613,9 @@ package go9p
 //@   property C07 C06 C03 C08 C19
 //@   requires reqwf(req) && poolok(req.Conn) && nolocks() && len(req.Rc.Buf) >= req.Conn.Msize
 //@   at call((*SrvReq).Process) requires [notflushed] flushed == false
+//@   ghost viaflush bool = false
+//@   at call((*SrvReq).Respond) after viaflush := true
+//@   ensures  [C07 saved] !viaflush ==> req.status & 2 == 0 && (req.status & 4 == 0 ==> req.status & 8 != 0)
 //@   assigns  everything
 
 //@ pure unread(conn, buf, pos, rd) = forall k int :: 0 <= k && k < pos ==> buf[k] == instream(conn)[rd - pos + k]
@@ -1599,8 +1635,15 @@ package go9p
 //@   at call(Unpack) requires [aligned] rd - pos == fstart(instream(conn), nf)
 //@   at call(Unpack) after nf := nf + 1
 //@   at call((*SrvReq).process) requires [C08 synconly] arg0.Tc.Type == 100
-//@   at call((*SrvReq).process) requires [size] 7 <= arg0.Tc.Size && arg0.Tc.Size <= conn.Msize && len(arg0.Rc.Buf) <= conn.Msize
-//@   at go((*SrvReq).process) requires [size] 7 <= arg0.Tc.Size && arg0.Tc.Size <= conn.Msize && len(arg0.Rc.Buf) <= conn.Msize
+//@   at call((*SrvReq).process) requires [size] 7 <= arg0.Tc.Size && arg0.Tc.Size <= conn.Msize && len(arg0.Rc.Buf) == conn.Msize
+//@   at go((*SrvReq).process) requires [size] 7 <= arg0.Tc.Size && arg0.Tc.Size <= conn.Msize && len(arg0.Rc.Buf) == conn.Msize
+//@   ghost dobj int = 0
+//@   ghost dend int = 0
+//@   at call(Unpack) after dobj := obj(arg0)
+//@   at call(Unpack) after dend := off(arg0) + ret1
+//@   at make(*)#2 ghost dobj := 0
+//@   at make(*)#3 ghost dobj := 0
+//@   at call(net.Conn.Read) requires [C13 C03 keepdelivered] obj(arg1) != dobj || off(arg1) >= dend
 //@   at call((*SrvReq).process) ensures forall k int :: 0 <= k && k < len(buf) ==> buf[k] == before(buf[k])
 //@   at call((*SrvReq).process) ensures connok(conn) && poolok(conn) && conn.conn == before(conn.conn) && conn.Msize <= before(conn.Msize)
 //@   at select(*) ensures ret0 == 0 ==> ret2 != nil && len(ret2.Buf) >= 24 && len(ret2.Buf) >= conn.Msize
@@ -1609,10 +1652,12 @@ package go9p
 //@     invariant 0 <= pos && pos <= len(buf) && (pos <= 4 || (pos < u32le(buf, 0) && u32le(buf, 0) <= len(buf) && u32le(buf, 0) <= conn.Msize))
 //@     invariant (len(buf) >= conn.Msize ==> pos < len(buf))
 //@     invariant unread(conn, buf, pos, rd) && rd - pos == fstart(instream(conn), nf) && nf >= 0 && rd >= pos
+//@     invariant (dobj == 0 || dobj == obj(buf)) && (dobj == obj(buf) ==> off(buf) >= dend)
 //@   loop 2
 //@     invariant connok(conn) && poolok(conn) && nolocks() && conn.conn != nil && conn.Msize <= 268435455
 //@     invariant 0 <= pos && pos <= len(buf)
 //@     invariant unread(conn, buf, pos, rd) && rd - pos == fstart(instream(conn), nf) && nf >= 0 && rd >= pos
+//@     invariant (dobj == 0 || dobj == obj(buf)) && (dobj == obj(buf) ==> off(buf) >= dend)
 
 //@ func (*Fcall).String(fc) (s)
 //@   property C06
@@ -1624,15 +1669,21 @@ package go9p
 //@   opt lockcheck
 //@   property C03 C06 C12 C19
 //@   requires connok(conn) && nolocks() && conn.conn != nil
-//@   at select(*)#1 ensures ret0 == 1 ==> ret3 != nil && reqwf(ret3) && ret3.Conn == conn && len(ret3.Rc.Pkt) >= 7 && len(ret3.Rc.Pkt) <= len(ret3.Rc.Buf) && len(ret3.Rc.Buf) <= conn.Msize
+//@   at select(*)#1 ensures ret0 == 1 ==> ret3 != nil && reqwf(ret3) && ret3.Conn == conn && len(ret3.Rc.Pkt) >= 7 && len(ret3.Rc.Pkt) <= len(ret3.Rc.Buf) && len(ret3.Rc.Buf) <= conn.Msize && !handed(ret3.Rc) && obj(ret3.Rc.Pkt) == obj(ret3.Rc.Buf)
 //@   at call(SetTag) requires [tag] arg1 == req.Tc.Tag && arg0 == req.Rc
+//@   at call(net.Conn.Write) requires [C03 C13 owned] !handed(req.Rc) && obj(arg1) == obj(req.Rc.Buf)
 //@   at call(net.Conn.Write) requires [msize] len(arg1) <= conn.Msize
 //@   at call(net.Conn.Write) ensures ret1 == nil ==> 0 <= ret0 && ret0 <= len(arg1)
 //@   at call(net.Conn.Write)#1 requires [tagbytes] u16le(req.Rc.Pkt, 5) == req.Tc.Tag
+// the receive loop's close() blocks until this goroutine takes the token from conn.done: no other way out
+//@   ghost gotdone bool = false
+//@   at select(*)#1 after gotdone := ret0 == 0
+//@   ensures  [C11 drains] gotdone
 //@   loop 1
 //@     invariant connok(conn) && nolocks() && conn.conn != nil
 //@   loop 2
 //@     invariant connok(conn) && nolocks() && conn.conn != nil && req != nil && reqwf(req) && len(buf) <= conn.Msize
+//@     invariant !handed(req.Rc) && obj(buf) == obj(req.Rc.Buf)
 
 // transport (assumed): Write only reads its argument; Read stores into its argument only
 //@ iface net.Conn.Write(c, b) (n, err)
@@ -1756,11 +1807,16 @@ package go9p
 //@   at call(ConnOps.ConnClosed) ghost nclosed := nclosed + 1
 //@   at call(SrvFidOps.FidDestroy) requires [valid] arg1 != nil
 //@   at lock(conn.Lock) assume poolok(conn)
+// every fid found in the table goes into the snapshot that is destroyed
+//@   ghost nfound int = 0
+//@   at next(*)#1 after nfound := ite(ret0, nfound + 1, nfound)
+//@   at unlock(conn.Unlock) requires [C11 allfids] len(fids) == nfound
 //@   ensures  implements(old(conn.Srv.ops), "ConnOps") ==> nclosed == 1
 //@   ensures  nclosed <= 1
 //@   loop 1
 //@     invariant conn != nil && heldonly(conn) && nclosed <= 1 && (implements(old(conn.Srv.ops), "ConnOps") ==> nclosed == 1) && poolok(conn)
 //@     invariant forall k int :: 0 <= k && k < len(fids) ==> fids[k] != nil
+//@     invariant len(fids) == nfound
 //@   loop 2
 //@     invariant conn != nil && nolocks() && nclosed <= 1 && (implements(old(conn.Srv.ops), "ConnOps") ==> nclosed == 1) && -1 <= rangeindex && rangeindex < len(fids)
 //@     invariant forall k int :: 0 <= k && k < len(fids) ==> fids[k] != nil
@@ -1795,6 +1851,8 @@ package go9p
 // (SrvReq.next/prev/flushreq are guarded by the connection lock only while the request is linked from conn.reqs;
 //  that ownership transfer is not expressible in the held-set discipline and is not checked)
 //@ guarded Srv.conns by Srv
+//@ guarded osUsers.users by osUsers
+//@ guarded osUsers.groups by osUsers
 //@ guarded Clnt.reqfirst by Clnt
 //@ guarded Clnt.reqlast by Clnt
 //@ guarded Clnt.err by Clnt
@@ -1808,6 +1866,45 @@ package go9p
 //@ immutable Clnt.conn by NewClnt
 //@ immutable Req.Clnt by (*Clnt).ReqAlloc (*Tag).reqAlloc
 //@ immutable Req.tag by (*Clnt).ReqAlloc (*Tag).reqAlloc
+
+//@ func (*Clnt).send(clnt)
+//@   opt lockcheck
+//@   property C10 C06 C19
+//@   requires clnt != nil && clnt.conn != nil && nolocks()
+//@   at select(*) ensures ret0 == 1 ==> ret3 != nil && ret3.Tc != nil
+//@   at call(net.Conn.Write) ensures ret1 == nil ==> 0 <= ret0 && ret0 <= len(arg1)
+// recv's shutdown path blocks until this goroutine takes the token from clnt.done: no other way out
+//@   ghost gotdone bool = false
+//@   at select(*) after gotdone := ret0 == 0
+//@   ensures  [C10 drains] gotdone
+//@   loop 1
+//@     invariant clnt != nil && clnt.conn != nil && nolocks()
+//@   loop 2
+//@     invariant clnt != nil && clnt.conn != nil && nolocks()
+
+//@ func (*Clnt).ReqFree(clnt, req)
+//@   property C09 C06
+//@   requires clnt != nil && req != nil && clnt.tagpool != nil && clnt.tagpool.low <= req.tag && req.tag <= clnt.tagpool.high
+//@   ghost nput int = 0
+//@   ghost cached bool = false
+//@   at select(*) after cached := ret0 == 0
+//@   at call((*Pool).Put) ghost nput := nput + 1
+//@   at call((*Pool).Put) requires [C09 tag] arg1 == old(req.tag)
+//@   ensures  [C09 recycled] cached || nput == 1
+
+//@ func (*osUsers).Uid2User(up, uid) (u)
+//@   opt lockcheck
+//@   property C19 C06
+//@   requires nolocks()
+//@   at call((*sync.Once).Do) ensures OsUsers != nil && OsUsers.users != nil && OsUsers.groups != nil
+//@   ensures  nolocks()
+
+//@ func (*osUsers).Gid2Group(up, gid) (g)
+//@   opt lockcheck
+//@   property C19 C06
+//@   requires nolocks()
+//@   at call((*sync.Once).Do) ensures OsUsers != nil && OsUsers.users != nil && OsUsers.groups != nil
+//@   ensures  nolocks()
 
 //@ func (*Pool).Put(p, id)
 //@   property C09 C06
@@ -1848,8 +1945,15 @@ package go9p
 //@   opt lockcheck
 //@   requires clnt != nil && clnt.conn != nil && nolocks() && clnts != nil && clnt.Msize >= 24 && clnt.Msize <= 268435455
 //@   ghost rd int = 0
-//@   at call(net.Conn.Read) requires [room] true
+//@   at call(net.Conn.Read) requires [room] len(arg1) > 0
 //@   at call(net.Conn.Read) requires [delivered] pos <= 4 || pos < u32le(buf, 0)
+//@   ghost dobj int = 0
+//@   ghost dend int = 0
+//@   at call(Unpack) after dobj := obj(arg0)
+//@   at call(Unpack) after dend := off(arg0) + ret1
+//@   at make(*)#1 ghost dobj := 0
+//@   at make(*)#2 ghost dobj := 0
+//@   at call(net.Conn.Read) requires [C13 C09 C19 keepdelivered] obj(arg1) != dobj || off(arg1) >= dend
 //@   at call(net.Conn.Read) ensures 0 <= ret0 && ret0 <= len(arg1) && forall k int :: 0 <= k && k < ret0 ==> arg1[k] == instream(clnt)[rd + k]
 //@   at call(net.Conn.Read) after rd := rd + ret0
 //@   at call(Unpack) requires [complete] 4 < pos && u32le(buf, 0) <= pos && pos <= len(buf)
@@ -1861,12 +1965,16 @@ package go9p
 //@     invariant clnt != nil && clnt.conn != nil && nolocks() && 0 <= pos && pos <= len(buf) && clnts != nil
 //@     invariant pos <= 4 || pos < u32le(buf, 0)
 //@     invariant forall k int :: 0 <= k && k < pos ==> buf[k] == instream(clnt)[rd - pos + k]
+//@     invariant len(buf) >= clnt.Msize ==> pos < len(buf)
+//@     invariant (dobj == 0 || dobj == obj(buf)) && (dobj == obj(buf) ==> off(buf) >= dend)
 //@   loop 2
 //@     invariant clnt != nil && clnt.conn != nil && nolocks() && 0 <= pos && pos <= len(buf) && clnts != nil
 //@     invariant forall k int :: 0 <= k && k < pos ==> buf[k] == instream(clnt)[rd - pos + k]
+//@     invariant (dobj == 0 || dobj == obj(buf)) && (dobj == obj(buf) ==> off(buf) >= dend)
 //@   loop 3
 //@     invariant clnt != nil && clnt.conn != nil && heldonly(clnt) && fc != nil && 0 <= pos && pos <= len(buf) && fcsize == u32le(buf, 0) && 7 <= fcsize && fcsize <= pos && clnts != nil
 //@     invariant forall k int :: 0 <= k && k < pos ==> buf[k] == instream(clnt)[rd - pos + k]
+//@     invariant dobj == obj(buf) && dend == off(buf) + fcsize
 //@   loop 4
 //@     invariant clnt != nil && nolocks() && err != nil && clnts != nil
 
